@@ -33,6 +33,8 @@ class Path:
         self.alts = []
         self.side = []          # instantiated library axioms (true for all arguments)
         self.nfresh = 0
+        self.lits = {}          # simplified condition id -> (decision, condition): literals decided on this path
+        self.known_cache = {}
         self.concrete = False   # concrete-execution mode (cross-check): no solver at all
 
     def _feasible(self, c):
@@ -67,7 +69,50 @@ class Path:
         c = cond if d else z3.Not(cond)
         self.pc.append(c)
         self.solver.add(c)
+        self._record(cond, d)
         return d
+
+    def _record(self, cond, d):
+        self.lits[cond.get_id()] = (d, cond)
+        if not z3.is_app(cond):
+            return
+        k = cond.decl().kind()
+        if k == z3.Z3_OP_NOT:
+            self._record(cond.arg(0), not d)
+        elif (k == z3.Z3_OP_AND and d) or (k == z3.Z3_OP_OR and not d):
+            for ch in cond.children():
+                self._record(ch, d)
+
+    def known(self, cond):
+        """truth value of a condition that was already decided on this path (syntactic, after simplification), else None"""
+        if not self.lits:
+            return None
+        c = z3.simplify(cond)
+        if z3.is_true(c):
+            return True
+        if z3.is_false(c):
+            return False
+        hit = self.lits.get(c.get_id())
+        if hit is not None:
+            return hit[0]
+        if z3.is_not(c):
+            hit = self.lits.get(c.arg(0).get_id())
+            if hit is not None:
+                return not hit[0]
+        # semantic fall-back: is the condition settled by the path condition?  (cached; only mask-like booleans get here)
+        i = c.get_id()
+        if i in self.known_cache and (self.known_cache[i][0] is not None or self.known_cache[i][2] == len(self.pc)):
+            return self.known_cache[i][0]
+        res = None
+        if len(self.known_cache) < 4000:
+            if not self._feasible(z3.Not(c)):
+                res = True
+            elif not self._feasible(c):
+                res = False
+        self.known_cache[i] = (res, c, len(self.pc))
+        if res is not None:
+            self._record(c, res)
+        return res
 
     def branch_value(self, iv, limit=64):
         """fork one path per feasible value of the integer term `iv`; the chosen values are recorded in the
@@ -166,9 +211,19 @@ def rv(x):
     raise Unsupported(f'cannot lift {type(x).__name__} to a z3 term')
 
 
+def _known(c):
+    p = Ctx.path
+    if p is None or not p.lits:
+        return None
+    return p.known(c)
+
+
 def to_real(v):
     if is_sym(v):
         if z3.is_bool(v):
+            k = _known(v)
+            if k is not None:
+                return 1.0 if k else 0.0
             return z3.If(v, z3.RealVal(1), z3.RealVal(0))
         if z3.is_int(v):
             return z3.ToReal(v)
@@ -250,9 +305,26 @@ def s_neg(a):
     return -to_num(a)
 
 
+def _indicator(t):
+    """c if t is the 0/1 indicator If(c, 1, 0) of a condition, else None"""
+    if is_sym(t) and z3.is_app(t) and t.decl().kind() == z3.Z3_OP_ITE:
+        c, x, y = t.children()
+        if (z3.is_rational_value(x) or z3.is_int_value(x)) and (z3.is_rational_value(y) or z3.is_int_value(y)):
+            xv = x.as_long() if z3.is_int_value(x) else x.as_fraction()
+            yv = y.as_long() if z3.is_int_value(y) else y.as_fraction()
+            if xv == 1 and yv == 0:
+                return c
+            if xv == 0 and yv == 1:
+                return z3.Not(c)
+    return None
+
+
 def s_mul(a, b):
     if not (is_sym(a) or is_sym(b)):
         return a * b
+    ia, ib = _indicator(a), _indicator(b)
+    if ia is not None and ib is not None:             # product of two binary masks = mask of the conjunction
+        return s_ite(z3.And(ia, ib), 1.0, 0.0)
     # keep exact zeros / ones out of the formulas (big win for the mask algebra)
     for x, y in ((a, b), (b, a)):
         if not is_sym(x):
@@ -357,6 +429,18 @@ def s_cmp(op, a, b):
     if op in ('==', '!=') and ((is_sym(a) and z3.is_bool(a)) and (isinstance(b, bool) or (is_sym(b) and z3.is_bool(b)))):
         bb = rv(b) if not is_sym(b) else b
         return a == bb if op == '==' else a != bb
+    for x, y, flip in ((a, b, False), (b, a, True)):
+        ix = _indicator(x)
+        if ix is not None and not is_sym(y) and y in (0, 1):
+            o = op if not flip else {'<': '>', '<=': '>=', '>': '<', '>=': '<=', '==': '==', '!=': '!='}[op]
+            one = ix if y == 1 else z3.Not(ix)          # x == y
+            if o == '==':
+                return one
+            if o == '!=':
+                return z3.Not(one)
+            if y == 0:
+                return {'>': ix, '>=': z3.BoolVal(True), '<': z3.BoolVal(False), '<=': z3.Not(ix)}[o]
+            return {'>': z3.BoolVal(False), '>=': ix, '<': z3.Not(ix), '<=': z3.BoolVal(True)}[o]
     a, b = _coerce(a, b)
     if op == '<':
         return a < b
@@ -374,6 +458,9 @@ def s_cmp(op, a, b):
 def s_ite(c, a, b):
     if not is_sym(c):
         return a if c else b
+    k = _known(c)
+    if k is not None:
+        return a if k else b
     if not (is_sym(a) or is_sym(b)):
         if type(a) == type(b) and a == b:
             return a
